@@ -30,8 +30,7 @@ ASSUMPTIONS = [
     "R9 assembles the <html> tree from plain tags and renders it with the library's renderer "
     "(layout is C06's business); html attribute arguments never collide with the user's own "
     "<html> attributes (statement silent on precedence)",
-    "a tagifiable standing alone at the top of a document and expanding to <html>/<body>, and "
-    "dependencies nested inside head_content(), are not generated (statement silent)",
+    "dependencies nested inside head_content() are not generated (statement silent)",
 ]
 
 D_A1 = {"name": "a", "version": "1.0", "source": {"subdir": "libdir"}, "script": [{"src": "a.js"}],
@@ -68,7 +67,11 @@ ITEMS = [T("txt"), B([T("b")]), I([T("i")]), ["DI", D_A1], ["DI", D_A2], ["DI", 
 D_AMP = {"name": "R&D <w>", "version": "1.0", "source": {"subdir": "libdir"}, "script": [{"src": "amp.js"}]}
 EXTRA_ITEMS = [["DI", D_AMP], ["DI", D_HEADTAG], ["DI", D_HEADLIST], ["DI", D_HEADTL], E("title", True, [T("doc-title")]),
                E("base", False, [], [["href", "/"]]), E("meta", True, [], [["name", "viewport"]]),
-               E("link", True, [], [["rel", "icon"]]), E("head", True, [T("inner-head")])]
+               E("link", True, [], [["rel", "icon"]]), E("head", True, [T("inner-head")]),
+               # tagifiable objects whose expansion is a <body> / <html> tag, or a list holding just that
+               ["X", E("body", True, [T("xb"), ["DI", D_A1]], [["class", "from-object"]])],
+               ["X", E("html", True, [E("body", True, [T("xh")])], [["lang", "xx"]])],
+               ["X", ["L", [E("body", True, [T("xlb")])]]]]
 HEADKIDS = [E("title", True, [T("user title")]), ["DI", D_A2], E("link", True, [], [["rel", "x"]]), HC_TAG,
             E("meta", True, [], [["charset", "iso-8859-1"]])]
 ATTRS = [[], [["lang", "en"]], [["class_", "k"]]]
